@@ -432,7 +432,7 @@ def classify(run, c):
 # ----------------------------------------------------------------------------- correspondence
 
 def correspond(run):
-    n = 200 if run.tier == "quick" else 10000
+    n = 500 if run.tier == "quick" else 10000
     cases = common.load_corpus(PROP) + [gen_case(run.rng, i) for i in range(n)]
     for k in STATS:
         STATS[k] = 0
